@@ -3,8 +3,8 @@ import SV.Model.Convert
 /-
 svdriver_c19: line protocol for the C19 model (SV/Model/Convert.lean).
   rows                              -> <number of rows of the media-type table = |Target.all| * |MT.all|>
-  mt <target> <hex media type>      -> nil | ok <hex media type> | err | panic      (outMediaType)
-       target: esgz | zstdchunked | exttoc | exttoc-lossless
+  mt <target> <hex media type> <content> -> nil | ok <hex media type> | err | panic (outMediaTypeFor)
+       target: esgz | zstdchunked | exttoc | exttoc-lossless;  content: none | gzip | zstd | json
   reset                             -> ok                                           (fresh esgzDigest2TOC)
   put <layer> <toc> <size>          -> ok n=<entries>                               (one atomic map write)
   finalize                          -> layers=<toc>:<size>:<layer>,...  | layers=-  (manifest layers, sorted by TOC digest)
@@ -22,6 +22,14 @@ def parseTarget? : String → Option Target
   | "zstdchunked" => some .zstdchunked
   | "exttoc" => some .extToc
   | "exttoc-lossless" => some .extTocLossless
+  | _ => none
+
+/-- real encoding of the source bytes; `json` = not a tar at all (only used with non-layer types) -/
+def parseContent? : String → Option Comp
+  | "none" => some .none
+  | "gzip" => some .gzip
+  | "zstd" => some .zstd
+  | "json" => some .none
   | _ => none
 
 /-- 64 hex digits → number. -/
@@ -43,10 +51,10 @@ def showMTOut : MTOut → String
 
 def step (s : St) : List String → St × String
   | ["rows"] => (s, toString (Target.all.length * MT.all.length))
-  | ["mt", t, m] =>
-    match parseTarget? t, (unhexStr? m).bind MT.ofStr? with
-    | some t, some m => (s, showMTOut (outMediaType t m))
-    | _, _ => (s, "bad-op")
+  | ["mt", t, m, c] =>
+    match parseTarget? t, (unhexStr? m).bind MT.ofStr?, parseContent? c with
+    | some t, some m, some c => (s, showMTOut (outMediaTypeFor t m c))
+    | _, _, _ => (s, "bad-op")
   | ["reset"] => ({ s with m := [] }, "ok")
   | ["put", l, t, sz] =>
     match parseDigest? l, parseDigest? t, parseNat? sz with
